@@ -1,6 +1,7 @@
 package props
 
 import (
+	"bytes"
 	"encoding/json"
 	"fmt"
 	"reflect"
@@ -76,6 +77,26 @@ func (p *c12) Run(w *lib.Worker, idx int, r *lib.Rand) lib.Case {
 	}
 	g := &gen.SchemaGen{R: r, O: gen.SchemaOpts{MaxDepth: 4, Refs: false, Defaults: true, SpecialNames: true, FormatAnyType: true}}
 	doc := g.Document()
+	if r.P(0.3) {
+		// degenerate but decodable schemas too (invalid regular expressions, empty lists, foreign keywords ...)
+		g.Degenerate(doc, false)
+	}
+	if r.P(0.2) {
+		// a closed object whose patternProperties hold a key which is not a valid regular expression
+		// (skipped by the validators; it must stay in the caller's schema)
+		pp, _ := doc["patternProperties"].(map[string]any)
+		if pp == nil {
+			pp = map[string]any{}
+			doc["patternProperties"] = pp
+		}
+		pp[r.Pick("(", "^(?=x-)[a-z-]+$", "[a", "*")] = map[string]any{"type": "integer"}
+		if r.P(0.7) {
+			doc["additionalProperties"] = false
+		}
+		if _, isObj := doc["type"]; !isObj {
+			doc["type"] = "object"
+		}
+	}
 	var inst any
 	if r.P(0.6) {
 		inst = g.Instance(doc, doc, 0, 0.2)
@@ -83,6 +104,12 @@ func (p *c12) Run(w *lib.Worker, idx int, r *lib.Rand) lib.Case {
 		inst = g.FreeValue(3)
 	}
 	st, it := gen.JSON(doc), gen.JSON(inst)
+	if bytes.Contains(st, []byte(`"$ref"`)) {
+		return lib.Case{Tags: []string{"schema-with-ref-skipped"}} // the schema clause is about reference-free schemas
+	}
+	if _, err := sut.Schema(st); err != nil {
+		return lib.Case{Tags: []string{"schema-does-not-decode"}}
+	}
 	c := lib.Case{Hash: lib.Hash64(append(append([]byte{}, st...), it...)), Evals: 3}
 	c.Nontrivial = hasContainer(inst) && g.Features["default"]
 	for mode, name := range []string{"AgainstSchema", "NewSchemaValidator", "NewSchemaValidator+recycle"} {
